@@ -1,6 +1,7 @@
 import OrsoVerif.Lemmas.Frame
 import OrsoVerif.Lemmas.FrameProg
 import OrsoVerif.Generated.FrameFns
+import OrsoVerif.Model.FrameCell
 /-!
 # C03 — DataFrame operators agree with a list-of-tuples model
 
@@ -849,6 +850,103 @@ theorem wfProgB_sound (prog : List (Op α)) (st : List (IReg α)) (h : wfProgB s
   wfProgB_sound' prog st h
 
 end programs
+
+/-! ## Pass 5 — several batchings of one frame consumed interleaved; rows that look alike -/
+
+/-- **Batchings consumed interleaved.**  However the `next` calls on any number of batchings of one frame are
+interleaved (`sched`: nested loops, `zip`, lock step, one abandoned part-way), batching `i` hands out consecutive
+batches of *its own* partition — the batches of the generated `to_batches` body for its size, from where it stood,
+as many as it was asked for: no batching moves, restarts or exhausts another. -/
+theorem interleaved_batchings (rows : List α) (size pos : Nat → Nat) (sched : List Nat) (i : Nat) :
+    yielded i (advance rows size pos sched)
+      = ((Gen.FrameFns.to_batches rows ((size i : Nat) : Int)).drop (pos i)).take (sched.count i) := by
+  rw [generated_to_batches_eq_model]
+  induction sched generalizing pos with
+  | nil => simp [advance, yielded]
+  | cons j sched ih =>
+    unfold advance yielded
+    by_cases hji : j = i
+    · subst hji
+      have := ih (fun k => if k = j then pos j + 1 else pos k)
+      simp only [yielded, if_true] at this
+      simp only [List.filterMap_cons, if_true, List.count_cons_self]
+      rw [drop_take_succ_getElem?]
+      cases h : (batches rows (size j))[pos j]? with
+      | none => simp [this]
+      | some b => simp [this]
+    · have := ih (fun k => if k = j then pos j + 1 else pos k)
+      simp only [yielded, if_neg (Ne.symm hji)] at this
+      simp only [List.filterMap_cons, if_neg hji]
+      rw [this, List.count_cons_of_ne hji]
+
+/-- `k` batchings opened on one frame, each advanced (in any interleaving) at least as often as it has batches, yield
+`k` copies of the partition: every one of them the full batches plus one remainder, which concatenated are the rows. -/
+theorem batchings_each_partition (rows : List α) (size : Nat → Nat) (sched : List Nat) (i : Nat) (hs : 0 < size i)
+    (hd : (batches rows (size i)).length ≤ sched.count i) :
+    yielded i (advance rows size (fun _ => 0) sched) = batches rows (size i)
+    ∧ (yielded i (advance rows size (fun _ => 0) sched)).flatten = rows := by
+  have h := interleaved_batchings rows size (fun _ => 0) sched i
+  rw [generated_to_batches_eq_model] at h
+  simp only [List.drop_zero] at h
+  rw [List.take_of_length_le hd] at h
+  exact ⟨h, by rw [h]; exact (batches_spec rows (size i) hs).1⟩
+
+/-- A batching of size `b` is the row iterator of its frame read `b` rows at a time: the `j` batches it hands out from
+batch number `p` are the batches of the `j·b` rows a list iterator standing at row `p·b` hands out (this is how the
+correspondence check runs batchings on `specEval` / `implEval`: `iter` + `next (j·b)`, so `iter_yields_rows_once` and
+the refinement cover them). -/
+theorem batching_is_chunked_iteration (rows : List α) (b p j : Nat) (hb : 0 < b) :
+    ((Gen.FrameFns.to_batches rows (b : Int)).drop p).take j = batches ((rows.drop (p * b)).take (j * b)) b := by
+  rw [generated_to_batches_eq_model]
+  exact batches_window rows b p j hb
+
+/-- The loop of `distinct` as the source has it now asks its seen-set — and, for rows that cannot be hashed, its
+by-value list — for the *row itself* and stores the row itself (the generated flags): membership in a set of rows
+and in a list of rows is equality of rows, so the loop is `distinctAux`.  A lookup under a derived key is
+`distinctOn`, which the next two theorems separate from `distinct`. -/
+theorem distinct_looks_up_rows :
+    Gen.Frame.distinctSeenKeyIsRow = true ∧ Gen.Frame.distinctUnhashableKeyIsRow = true := by decide
+
+/-- **Rows that look alike.**  A seen-set keyed on anything derived from the row (`hash(row)`, `str(row)`, a
+"hashable form" with lists turned into tuples) de-duplicates like `distinct` on every listing exactly when the key
+tells unequal rows apart … -/
+theorem distinct_by_key_of_injective {κ : Type} [DecidableEq α] [DecidableEq κ] (k : α → κ) (hk : ∀ a b, k a = k b → a = b)
+    (rows : List α) : distinctOn k rows = distinct rows :=
+  distinctOnAux_injective k hk [] rows
+
+/-- … and whenever two unequal rows share a key, the frame holding just these two loses the second one, which
+`distinct` ("the first of each set of *equal* rows") keeps. -/
+theorem lookalike_key_drops_a_row {κ : Type} [DecidableEq α] [DecidableEq κ] (k : α → κ) (x y : α) (hxy : x ≠ y)
+    (hk : k x = k y) : distinctOn k [x, y] = [x] ∧ distinct [x, y] = [x, y] := by
+  constructor
+  · simp [distinctOn, distinctOnAux, hk]
+  · simp [distinct, distinctAux, Ne.symm hxy]
+
+/-- **Cells up to Python equality** (`Model/FrameCell.lean`, what the driver applies to every cell): `True`, `1` are one
+value and so are `False`, `0`; a tuple and a list are different values whatever they hold — so `distinct` keeps a
+row with a list in a cell next to the row with the tuple of the same values in that cell, in either order. -/
+theorem list_and_tuple_rows_both_kept (k : PyVal) (xs ys : List PyVal) :
+    pyKey (.bool true) = pyKey (.int 1) ∧ pyKey (.bool false) = pyKey (.int 0)
+    ∧ pyKey (tupleCell xs) ≠ pyKey (.list ys)
+    ∧ distinct [pyKeyL [k, .list xs], pyKeyL [k, tupleCell xs]] = [pyKeyL [k, .list xs], pyKeyL [k, tupleCell xs]]
+    ∧ distinct [pyKeyL [k, tupleCell xs], pyKeyL [k, .list xs]] = [pyKeyL [k, tupleCell xs], pyKeyL [k, .list xs]] := by
+  have hne : pyKey (tupleCell xs) ≠ pyKey (.list ys) := by simp [tupleCell, pyKey]
+  have hne' : pyKey (tupleCell xs) ≠ pyKey (.list xs) := by simp [tupleCell, pyKey]
+  refine ⟨by decide, by decide, hne, ?_, ?_⟩
+  · have h : pyKeyL [k, .list xs] ≠ pyKeyL [k, tupleCell xs] := by
+      simp only [pyKeyL]; intro h; injection h with _ h; injection h with h _; exact hne' h.symm
+    exact (lookalike_key_drops_a_row (fun _ => ()) _ _ h rfl).2
+  · have h : pyKeyL [k, tupleCell xs] ≠ pyKeyL [k, .list xs] := by
+      simp only [pyKeyL]; intro h; injection h with _ h; injection h with h _; exact hne' h
+    exact (lookalike_key_drops_a_row (fun _ => ()) _ _ h rfl).2
+
+example : pyKey (.dict [("__pydict__", .dict [("b", .int 2), ("a", .bool true)])])
+    = pyKey (.dict [("__pydict__", .dict [("a", .int 1), ("b", .int 2)])]) := by decide
+
+example : yielded (α := Nat) 0 (advance [1, 2, 3, 4, 5] (fun i => i + 2) (fun _ => 0) [0, 1, 0, 1, 0, 0]) = [[1, 2], [3, 4], [5]]
+    ∧ yielded (α := Nat) 1 (advance [1, 2, 3, 4, 5] (fun i => i + 2) (fun _ => 0) [0, 1, 0, 1, 0, 0]) = [[1, 2, 3], [4, 5]] := by decide
+example : distinctOn (fun (r : List Nat) => r.length) [[1], [2], [1, 2]] = [[1], [1, 2]] ∧ distinct [[1], [2], [1, 2]] = [[1], [2], [1, 2]] := by decide
+
 
 /-- Non-vacuity of the program theorems: a lazily backed frame, an iteration abandoned after one row,
 another operator on the same frame, the iteration resumed, a lazily backed result read twice. -/
